@@ -20,7 +20,7 @@ pub const ENTRY: Entry = Entry {
            maxima; thorough: all values). The bus traffic is decoded by an independent MIPI decoder according to the COLMOD the \
            initialisation *announced* (16 bpp: R5G6B5 most-significant byte first / one 16-bit word; 18 bpp: three bytes, six bits \
            left-aligned). Oracle: decoded (r,g,b) == drawn colour; repeat path words == stream path words; announced interface format \
-           matches the colour type; fill / stream / fill histories on SPI decode to the fill colour. Non-trivial = every value except black.",
+           matches the colour type; fill / stream / fill histories on SPI decode to the fill colour, also when one low-level operation of the stream call fails (every position). Non-trivial = every value except black.",
     assumptions: &["independent decoder in ctl.rs; low two bits of 18-bpp bytes are ignored by the controller"],
     run,
 };
@@ -242,6 +242,37 @@ fn run(ctx: &Ctx) -> Part {
                             });
                         }
                         acc.count("fill_stream_fill_histories", 1);
+                        // the same history with the k-th low-level operation of the stream call failing (every k)
+                        for fk in 0..64u64 {
+                            let mut rig = Rig::new(cfg);
+                            let mut ok = rig.apply(&ops[0]).is_ok();
+                            let at = rig.ops() + fk;
+                            let fired0 = rig.bd.borrow().failed_ops.len();
+                            rig.set_faults(&[crate::env::Fault { at, mode: crate::env::FaultMode::Unchanged }]);
+                            let _ = rig.apply(&ops[1]);
+                            rig.set_faults(&[]);
+                            if rig.bd.borrow().failed_ops.len() == fired0 {
+                                break;
+                            }
+                            rig.ctl.viols.clear();
+                            acc.evaluations += 1;
+                            acc.nontrivial += 1;
+                            acc.count("fill_failed_stream_fill_histories", 1);
+                            ok &= rig.apply(&ops[2]).is_ok();
+                            let wrong = (0..3u32).flat_map(|y| (0..4u32).map(move |x| (x, y))).find(|&(x, y)| {
+                                let cc = geo.cell(x, y);
+                                rig.ctl.mem.get(cc.0, cc.1) != want
+                            });
+                            if !ok || wrong.is_some() || !rig.ctl.viols.is_empty() {
+                                acc.violation(Violation {
+                                    prop: ctx.prop.clone(),
+                                    sig: "encoding/fill-after-failed-stream".into(),
+                                    msg: format!("{:?}: clear({fill:#x}), a stream of {k} pixels whose low-level operation {fk} fails, fill_solid({fill:#x}): the last fill does not decode to the fill colour everywhere (first wrong pixel {wrong:?}, protocol {:?})", cfg.tr, rig.ctl.viols.first()),
+                                    case: json!({"kind": "c05", "variant": ctx.variant, "cfg": cfg, "value": fill, "leg": "fill-failed-stream-fill", "k": k, "fk": fk, "first_is_fill": first_is_fill}),
+                                });
+                                break;
+                            }
+                        }
                     }
                 }
             }
